@@ -1,5 +1,6 @@
 import AasVerif.Lemmas.SnippetsRead
 import AasVerif.Lemmas.SnippetsUtf8
+import AasVerif.Lemmas.SnippetsGlob
 import AasVerif.Gen.Snippets
 /-!
 # C25 — Snippet directory is loaded exactly (and `readDir_perm_invariant` of C22)
@@ -228,6 +229,82 @@ theorem utf8_rejects :
     ∧ utf8Decode [0xF4, 0x90, 0x80, 0x80] = none ∧ utf8Decode [0xF5, 0x80, 0x80, 0x80] = none  -- > U+10FFFF
     ∧ utf8Decode [0xE2, 0x82] = none ∧ utf8Decode [0x80] = none ∧ utf8Decode [256] = none := by decide
 
+/-! ## directory trees: `readTree root = read (glob root)` -/
+
+/-- `glob("**/*")` hands every node of the tree to the loop exactly once (in whatever order). -/
+theorem glob_complete (root : List Node) : (glob root).Perm (allList [] root) := glob_perm_all root
+
+theorem WF_of_perm {es es' : List Entry} (hp : es.Perm es') (wf : WF es) : WF es' :=
+  ⟨(hp.map _).nodup_iff.mp wf.1, fun e he => wf.2 e (hp.mem_iff.mpr he)⟩
+
+/-- `read_exact` for a directory tree whose paths are unique and whose names are sane: the mapping
+is exactly the non-hidden regular files anywhere in the tree. -/
+theorem readTree_exact (root : List Node) (wf : WF (allList [] root)) (m : List (Text × Text))
+    (h : readTree root = .ok m) (k v : Text) :
+    (k, v) ∈ m ↔ ∃ e ∈ allList [] root, ∃ t, Good e t ∧ k = posix e.rel ∧ v = strip (universalNewlines t) := by
+  have hp := glob_complete root
+  rw [read_exact (glob root) (WF_of_perm hp.symm wf) m h k v]
+  constructor
+  · rintro ⟨e, he, r⟩; exact ⟨e, hp.mem_iff.mp he, r⟩
+  · rintro ⟨e, he, r⟩; exact ⟨e, hp.mem_iff.mpr he, r⟩
+
+/-- The run fails iff an offending file exists anywhere in the tree (outside hidden directories). -/
+theorem readTree_error_iff (root : List Node) :
+    (∃ e ∈ allList [] root, Offending e) ↔ ∃ msgs, readTree root = .err msgs := by
+  have hp := glob_complete root
+  unfold readTree
+  rw [← bad_key_or_utf8_is_error]
+  constructor
+  · rintro ⟨e, he, r⟩; exact ⟨e, hp.mem_iff.mpr he, r⟩
+  · rintro ⟨e, he, r⟩; exact ⟨e, hp.mem_iff.mp he, r⟩
+
+theorem readTree_never_crashes (root : List Node) (site : String) : readTree root ≠ .crash site :=
+  read_never_crashes _ site
+
+/-- C22 at the level of trees: two trees with the same nodes — the same directory listed in any
+other order, at every level — give the same mapping in the same order or the same errors in the
+same order. -/
+theorem readTree_listing_order_invariant (root root' : List Node)
+    (hp : (allList [] root).Perm (allList [] root')) (wf : WF (allList [] root)) :
+    readTree root = readTree root' := by
+  unfold readTree
+  apply readDir_perm_invariant
+  · exact (glob_complete root).trans (hp.trans (glob_complete root').symm)
+  · exact (WF_of_perm (glob_complete root).symm wf).relFunctional
+
+/-! ## the key matcher -/
+
+/-- The hand-written matcher accepts exactly the language of the pinned pattern
+`[a-zA-Z_][a-zA-Z_0-9.]*(/[a-zA-Z_][a-zA-Z_0-9.]*)*`: one or more segments joined by `/`, each a
+letter or `_` followed by letters, digits, `_` or `.`. -/
+theorem validKey_spec (k : Text) :
+    validKey k = true ↔ ∃ segs, segs ≠ [] ∧ posix segs = k ∧
+      ∀ s ∈ segs, ∃ c cs, s = c :: cs ∧ isHead c = true ∧ ∀ d ∈ cs, isTail d = true := by
+  rw [validKey_iff]
+  constructor
+  · rintro ⟨segs, hne, hk, hv⟩
+    refine ⟨segs, hne, hk, ?_⟩
+    intro s hs
+    have := hv s hs
+    cases s with
+    | nil => simp [validSegment] at this
+    | cons c cs =>
+      simp only [validSegment, Bool.and_eq_true, List.all_eq_true] at this
+      exact ⟨c, cs, rfl, this.1, this.2⟩
+  · rintro ⟨segs, hne, hk, hv⟩
+    refine ⟨segs, hne, hk, ?_⟩
+    intro s hs
+    obtain ⟨c, cs, rfl, hc, hcs⟩ := hv s hs
+    simp only [validSegment, Bool.and_eq_true, List.all_eq_true]
+    exact ⟨hc, hcs⟩
+
+theorem validKey_examples :
+    validKey (Text.ofString "Verification/is_xs_date.py") = true ∧ validKey (Text.ofString "_") = true
+    ∧ validKey (Text.ofString "a//b") = false ∧ validKey (Text.ofString "9a") = false
+    ∧ validKey (Text.ofString "a/") = false ∧ validKey (Text.ofString "") = false
+    ∧ validKey (Text.ofString "a\nb") = false ∧ validKey (Text.ofString ".git/config") = false
+    ∧ validKey (Text.ofString "a b") = false ∧ validKey [97, 10] = false := by decide
+
 /-! ## non-vacuity -/
 
 example : WF [⟨[[97]], .file, [32, 120, 10]⟩, ⟨[[100], [98]], .file, []⟩, ⟨[[46, 103], [99]], .file, [255]⟩] := by
@@ -237,6 +314,12 @@ example : Good ⟨[[100], [98, 46, 112, 121]], .file, [0xC3, 0xA4, 10]⟩ [0xE4,
   unfold Good; decide
 
 example : Offending ⟨[[100], [57]], .file, []⟩ := by unfold Offending; decide
+
+example : WF (allList [] [.dir [100] [.leaf [98] .file [120], .dir [46, 104] [.leaf [99] .other []]], .leaf [97] .file []]) := by
+  unfold WF NamesOk; decide
+
+example : (allList [] [.dir [100] [.leaf [98] .file [120], .leaf [99] .file []], .leaf [97] .file []]).Perm
+    (allList [] [.leaf [97] .file [], .dir [100] [.leaf [99] .file [], .leaf [98] .file [120]]]) := by decide
 
 example : RelFunctional [⟨[[97]], .file, []⟩, ⟨[[98]], .other, []⟩] := by
   unfold RelFunctional; decide
